@@ -183,6 +183,14 @@ def run(prog, tier):
             if ent:
                 res.ok('validate-then-mutate', inst + ': ' + key, f.loc(n['id']), 'listed infeasible: ' + ent[0]['reason'], function=f.sig, expr=key, nontrivial=False)
                 continue
+            if left == {'std::out_of_range'} and re.sub(r'_nonConst$', '', n['callee']['name']) in ('frame', 'point', 'subframe', 'channel', 'group', 'parameter') and \
+                    len(f.call_args(n)) == 1 and f.nodes[f.strip(f.call_args(n)[0], 'noop')].get('tc') in ('u', 's'):
+                # a bounds-checked positional access whose position the discharge lemmas could not validate: no position that is out of
+                # range has been demonstrated either (A16) - the index may come from a search written in a way the lemma does not read
+                res.undecided('validate-then-mutate', inst + ': ' + key, f.loc(n['id']), 'the positional access %s(%s) comes after the object was modified and its position is not validated by a form the rule reads; '
+                              'no out-of-range position is demonstrated [shape not read by the rule]' % (cq.split('::')[-1], R.render(f.call_args(n)[0])[:60]), function=f.sig, expr=key)
+                problems += 1
+                continue
             if cq in UPDATERS:
                 res.viol('validate-then-mutate', inst + ': updater may throw after the store', f.loc(n['id']),
                          '%s may throw %s after the object was modified (%s)' % (cq.split('::')[-1], sorted(left), first_desc), function=f.sig, expr='updater:' + cq.split('::')[-1])
